@@ -46,14 +46,18 @@ def gen_c_obligations(tu, R, names, rep, only=None):
     """run the VC generator on each named function with its contract"""
     all_obs = []
     for nm in names:
-        if nm not in tu.functions:
-            rep.errors.append("function %s not found in the translation unit (renamed or removed?)" % nm)
-            continue
         con = R.contracts.get(nm)
         if con is None:
             rep.errors.append("no contract for %s" % nm)
             continue
+        cname, nm = nm, (con.function or nm)
+        if nm not in tu.functions:
+            rep.errors.append("function %s not found in the translation unit (renamed or removed?)" % nm)
+            continue
         ex = Exec(tu, R, nm, con)
+        if cname != nm:
+            ex.fninfo_file()
+            ex.fname = cname.replace('#', ':')
         try:
             obs = ex.run()
         except NotSupported as e:
